@@ -35,7 +35,7 @@ var (
 	hvTimeGood  = []string{"09:30:00", "23:59:59", "00:00:00"}
 	hvTimeBad   = []string{"9:30", "093000", "half past nine", "09-30-00", "24:61:00"}
 	hvIntGood   = []string{"0", "-5", "42", "2147483648", "9007199254740993"}
-	hvIntBad    = []string{"abc", "1.5", "12a", "--1", "1e3"}
+	hvIntBad    = []string{"abc", "1.5", "12a", "--1", "1e3", "0x1F", "0b101", "0o17", "1_000"}
 	hvNumGood   = []string{"1.5", "-2", "0", "1e3", "3.14159"}
 	hvNumBad    = []string{"abc", "1.5.2", "--1", "1,5"}
 	hvBoolGood  = []string{"true", "false"}
